@@ -54,7 +54,7 @@ vars == <<l, nbad, hits, nontriv>>
 HitNames == {"Run", "FitOk", "NoResult", "SingleRow", "AllIdentical", "Core", "Border", "Noise", "TwoClusters",
              "ProvisionalNoise", "AmbiguousBorder", "ExactEps", "Duplicates",
              "BackendPair", "BorderDiffers",
-             "PredictEmpty", "PredictNoiseWins", "PredictTie", "PredictPlurality",
+             "PredictEmpty", "PredictNoiseWins", "PredictContestedNoise", "PredictTie", "PredictPlurality",
              "ParamErr", "ParamOther"}
 
 B2N(b) == IF b THEN 1 ELSE 0
@@ -143,7 +143,12 @@ QKind(qnb, y, k) ==
     IF qnb = {} THEN "PredictEmpty"
     ELSE LET v == Votes(qnb, y, k) IN
          IF NMax(v) >= 2 THEN "PredictTie"
-         ELSE IF v[-1] = MaxVote(v) THEN "PredictNoiseWins" ELSE "PredictPlurality"
+         ELSE IF v[-1] = MaxVote(v)
+              \* noise holds the plurality; "contested" when at least two clusters also have
+              \* votes in the ball (noise must win although the clusters together may outnumber it)
+              THEN IF Cardinality({b \in DOMAIN v : b >= 0 /\ v[b] > 0}) >= 2
+                   THEN "PredictContestedNoise" ELSE "PredictNoiseWins"
+              ELSE "PredictPlurality"
 QKinds(fits, n, qnbs, a) ==
     IF a = 0 THEN <<>>
     ELSE [qi \in 1..Len(qnbs) |-> QKind(qnbs[qi], fits[a].y, fits[a].k)]
@@ -173,7 +178,8 @@ RunIncK(e, n, D, cnb, core, comp, kinds) ==
          [] x = "BackendPair" -> B2N(Cardinality({a \in 1..Len(e.fits) : Usable(e.fits[a], n)}) >= 2)
          [] x = "BorderDiffers" -> B2N(\E a \in 1..Len(e.fits) : \E b \in 1..Len(e.fits) :
                                           Usable(e.fits[a], n) /\ Usable(e.fits[b], n) /\ e.fits[a].y # e.fits[b].y)
-         [] x \in {"PredictEmpty", "PredictNoiseWins", "PredictTie", "PredictPlurality"} -> CountKind(kinds, x)
+         [] x \in {"PredictEmpty", "PredictNoiseWins", "PredictContestedNoise", "PredictTie", "PredictPlurality"}
+              -> CountKind(kinds, x)
          [] OTHER -> 0]
 
 RunInc(e, n, D, cnb, core, comp, qnbs) ==
